@@ -165,7 +165,7 @@ def dgen(**kw):
     """parameters for Dispatch_gen.cfg with defaults"""
     p = {"NEPs": "{2}", "GKinds": _K2, "Balancers": '{"priority"}', "Framings": '{"cl"}', "Routes": '{"proxy"}',
          "NSteps": 1, "WithHealth": "FALSE", "Pattern": 0, "BurstN": 1, "Placements": '{"all"}',
-         "ReqModels": '{"m1"}', "BootKinds": '{"up"}', "EpTypes": '{"openai-compatible"}'}
+         "ReqModels": '{"m1"}', "BootKinds": '{"up"}', "EpTypes": '{"openai-compatible"}', "Twins": "{FALSE}"}
     p.update(kw)
     return {"module": "DispatchGen", "cfg": "Dispatch_gen.cfg", "params": p}
 
@@ -175,6 +175,8 @@ _G_BURST = dgen(GKinds='{"ok", "reset_after"}', Balancers='{"round-robin"}', Fra
 _G_BURST3 = dgen(GKinds='{"ok", "reset_after"}', Balancers='{"round-robin"}', Framings='{"chunked"}', Pattern=5, BurstN=8)
 _G_SINGLE3 = dgen(NEPs="{2, 3}", Balancers='{"priority", "round-robin", "least-connections"}',
                   Framings='{"cl", "chunked"}', Routes='{"proxy", "provider"}')
+# every endpoint carries the same configured name: the failed one, not its namesake, leaves the candidate list
+_G_TWINS = dict(dgen(NEPs="{2, 3}", GKinds='{"ok", "refuse", "reset_pre"}', Balancers='{"priority", "round-robin", "least-connections"}', Twins="{TRUE}"), always=True)
 _G_FOUR = dgen(NEPs="{4}", GKinds='{"ok", "reset_pre", "refuse"}', Balancers='{"round-robin"}')
 _G_TWOSTEP = dgen(GKinds='{"ok", "refuse", "reset_pre", "reset_after"}', Balancers='{"round-robin"}', NSteps=3, WithHealth="TRUE")
 _G_BREAKER = dgen(GKinds='{"ok", "garbage", "close_pre"}', Balancers='{"round-robin"}', Pattern=4)
@@ -222,7 +224,7 @@ PROPS["C04"] = {
     "rule": _DISPATCH_RULE, "exhaustive": False,
     "assumptions": ["'timed out' dial failures are produced by black-holing a backend's address (raw listening socket "
                     "with a full accept queue), connection timeout 600 ms in those stacks"],
-    "parts": [dpart([_G_SINGLE2, _G_FOUR, _G_BREAKER, _G_TWOSTEP, _G_DIALTO], [_G_SINGLE3, _G_FOUR, _G_BREAKER, _G_TWOSTEP, _G_DIALTO], 8000)],
+    "parts": [dpart([_G_SINGLE2, _G_FOUR, _G_BREAKER, _G_TWOSTEP, _G_DIALTO, _G_TWINS], [_G_SINGLE3, _G_FOUR, _G_BREAKER, _G_TWOSTEP, _G_DIALTO, _G_TWINS], 8000)],
 }
 PROPS["C04"]["parts"][0]["quick"]["sample"] = 1200
 
